@@ -37,4 +37,5 @@ def plan(tier, seed):
                          "at most 12 len() polls per token)", "inputs needing more than N tokens"],
                 assumptions=COMMON_ASSUME[:2] + ["P3/P4: all bytes are concrete on a path; the symbolic ints select the case"],
                 stubs=["LazyScript(bytearray) supplies the script"])
-    return dict(conds=conds, meta=meta)
+    from engine import e2
+    return dict(conds=conds, meta=meta, obligations=e2.c02_obligations())
